@@ -69,11 +69,22 @@ static inline float FAN_CELL(const struct FAN* self, int i0, int i1, int i2, int
 #define SPEC_CELL_OK(s, ra, a, rb, b)                                                                                 \
   ((ra) < (rb) ? (g_c0 == (ra) && g_c1 == (a) && g_c2 == (rb) && (g_c3 == (b) || g_c3 == (b) + FN(s)))                \
                : (g_c0 == (rb) && g_c1 == (b) && g_c2 == (ra) && (g_c3 == (a) || g_c3 == (a) + FN(s))))
+#ifndef C20_LOOP_DOMAIN
 #define CONTRACT_K_fan_select                                                                                        \
   __CPROVER_requires(__CPROVER_is_fresh(self, sizeof(*self)) && FAN_VALID(self) && PAIR_OK(self, ra, a, rb, b) && g_cells == 0) \
   __CPROVER_requires(SPEC_IN_DATA(self, ra, a, rb, b) || SPEC_IN_DATA(self, rb, b, ra, a))                             \
   __CPROVER_assigns(g_c0, g_c1, g_c2, g_c3, g_cells)                                                                   \
   __CPROVER_ensures(g_cells == 1 && CELL_IN_RANGE(self, g_c0, g_c1, g_c2, g_c3) && SPEC_CELL_OK(self, ra, a, rb, b))
+#else
+/* the domain of the library's own loops (apply_*, iterate_*, make_*_data): ra, a over the whole ranges, rb from get_min_rb(ra) =
+   max(ra-D,0) to get_max_rb(ra), b from get_min_b(a) to get_max_b(a) - b is NOT reduced modulo N there (up to a+N/2+h < 2N) */
+#define CONTRACT_K_fan_select                                                                                        \
+  __CPROVER_requires(__CPROVER_is_fresh(self, sizeof(*self)) && FAN_VALID(self) && ra >= 0 && ra < self->num_rings && a >= 0 && a < FN(self) && g_cells == 0) \
+  __CPROVER_requires(rb >= K_max_int(ra - self->max_ring_diff, 0) && rb <= RBMAX(self, ra) && b >= MINB(self, a) && b <= MAXB(self, a)) \
+  __CPROVER_assigns(g_c0, g_c1, g_c2, g_c3, g_cells)                                                                   \
+  __CPROVER_ensures(g_cells == 1 && CELL_IN_RANGE(self, g_c0, g_c1, g_c2, g_c3))                                       \
+  __CPROVER_ensures(ra < rb ? (g_c0 == ra && g_c1 == a && g_c2 == rb && g_c3 == b) : (g_c0 == rb && g_c1 == b % FN(self) && g_c2 == ra))
+#endif
 
 /* ---- virtual crystals ("gaps"): x -> x - (x / C) * V for physical crystals (x % C < C - V) ---- */
 #ifndef C20_CT
@@ -305,4 +316,105 @@ int g_op, g_f0, g_f1, g_f2, g_f3, g_ops;
   __CPROVER_requires(ra >= 0 && ra < 100000 && a >= 0 && a < 100000 && rb >= 0 && rb < 100000 && b >= 0 && b < 100000 && APPLY_PRE && g_ops == 0) \
   __CPROVER_assigns(g_op, g_f0, g_f1, g_f2, g_f3, g_ops)                                                               \
   __CPROVER_ensures(g_ops == 1 && g_op == (apply ? OP_MUL : OP_DIV) && APPLY_F)
+
+/* ---- iterate_efficiencies (with model): the partner loop ----
+   For every detector (ra,a) with non-zero fan sum the denominator accumulates, exactly once for every partner (rb,b) of the model's
+   fan - rb in [max(ra-D,0), min(ra+D,R-1)], b in [a+N/2-h, a+N/2+h] -, the partner's efficiency [rb][b mod N] times model(ra,a,rb,b);
+   then efficiencies[ra][a] = fan sum / denominator; a detector with zero fan sum gets efficiency 0. Ghost (g_ra,g_a,g_rb,g_b). */
+int g_b, g_acc, g_acc_bad, g_set, g_set_kind;
+_Bool g_data_zero; /* data_fan_sums[g_ra][g_a] == 0 */
+static inline int K_fan_get_min_rb(const struct FAN* self, int ra) { return K_max_int(ra - self->max_ring_diff, 0); } /* FanProjData::get_min_rb as written */
+_Bool EFF_DATA_ZERO(int ra, int a)
+__CPROVER_assigns()
+__CPROVER_ensures((ra == g_ra && a == g_a) ==> __CPROVER_return_value == g_data_zero)
+;
+#define EFF_SET(ra_, a_, kind)                                                                                        \
+  do                                                                                                                  \
+    {                                                                                                                 \
+      __CPROVER_assert((ra_) >= 0 && (ra_) < self->num_rings && (a_) >= 0 && (a_) < FN(self), "efficiencies[ra][a] inside its ranges"); \
+      if ((ra_) == g_ra && (a_) == g_a) { ++g_set; g_set_kind = (kind); }                                              \
+    }                                                                                                                 \
+  while (0)
+#define EFF_ACCUM(erb, eb, mra, ma, mrb, mb)                                                                          \
+  do                                                                                                                  \
+    {                                                                                                                 \
+      __CPROVER_assert((erb) >= 0 && (erb) < self->num_rings && (eb) >= 0 && (eb) < FN(self), "efficiencies[rb][b % N] inside its ranges"); \
+      __CPROVER_assert((mra) == ra && (ma) == a && (mrb) == rb && (mb) == b && (erb) == rb && (eb) == b % FN(self), "partner efficiency and model element belong to the same pair"); \
+      if (ra == g_ra && a == g_a && rb == g_rb && b == g_b) ++g_acc;                                                   \
+    }                                                                                                                 \
+  while (0)
+#define EFF_GA_IN (g_ra >= 0 && g_ra < self->num_rings && g_a >= 0 && g_a < FN(self))
+#define EFF_PARTNER_IN (g_rb >= (g_ra - self->max_ring_diff > 0 ? g_ra - self->max_ring_diff : 0)                      \
+                        && g_rb <= (g_ra + self->max_ring_diff < self->num_rings - 1 ? g_ra + self->max_ring_diff : self->num_rings - 1) \
+                        && g_b >= g_a + FN(self) / 2 - self->half_fan_size && g_b <= g_a + FN(self) / 2 + self->half_fan_size)
+#define CONTRACT_K_iter_eff                                                                                           \
+  __CPROVER_requires(__CPROVER_is_fresh(self, sizeof(*self)) && FAN_VALID(self) && G_BOUNDED && g_b > -100000 && g_b < 100000 && g_acc == 0 && g_set == 0) \
+  __CPROVER_assigns(g_acc, g_set, g_set_kind)                                                                          \
+  __CPROVER_ensures(g_set == (EFF_GA_IN ? 1 : 0) && (g_set == 1 ==> g_set_kind == (g_data_zero ? 0 : 1)))              \
+  __CPROVER_ensures(g_acc == ((EFF_GA_IN && !g_data_zero && EFF_PARTNER_IN) ? 1 : 0))
+#define EFF_DONE_RA(ra_) (g_ra >= 0 && g_ra < (ra_) && g_a >= 0 && g_a < FN(self))
+#define EFF_DONE_A(ra_, a_) (EFF_DONE_RA(ra_) || (g_ra == (ra_) && g_a >= 0 && g_a < (a_)))
+#define EFF_SET_OK (g_set == 1 ==> g_set_kind == (g_data_zero ? 0 : 1))
+#define LC_K_iter_eff_0                                                                                               \
+  __CPROVER_assigns(ra, g_acc, g_set, g_set_kind)                                                                      \
+  __CPROVER_loop_invariant(ra >= 0 && ra <= self->num_rings)                                                           \
+  __CPROVER_loop_invariant(g_set == (EFF_DONE_RA(ra) ? 1 : 0) && EFF_SET_OK && g_acc == ((EFF_DONE_RA(ra) && !g_data_zero && EFF_PARTNER_IN) ? 1 : 0)) \
+  __CPROVER_decreases(self->num_rings - ra)
+#define LC_K_iter_eff_1                                                                                               \
+  __CPROVER_assigns(a, g_acc, g_set, g_set_kind)                                                                       \
+  __CPROVER_loop_invariant(a >= 0 && a <= FN(self))                                                                    \
+  __CPROVER_loop_invariant(g_set == (EFF_DONE_A(ra, a) ? 1 : 0) && EFF_SET_OK && g_acc == ((EFF_DONE_A(ra, a) && !g_data_zero && EFF_PARTNER_IN) ? 1 : 0)) \
+  __CPROVER_decreases(FN(self) - a)
+#define EFF_RB_LO (ra - self->max_ring_diff > 0 ? ra - self->max_ring_diff : 0)
+#define EFF_RB_HI (ra + self->max_ring_diff < self->num_rings - 1 ? ra + self->max_ring_diff : self->num_rings - 1)
+#define EFF_B_IN (g_b >= a + FN(self) / 2 - self->half_fan_size && g_b <= a + FN(self) / 2 + self->half_fan_size)
+#define LC_K_iter_eff_2                                                                                               \
+  __CPROVER_assigns(rb, g_acc)                                                                                         \
+  __CPROVER_loop_invariant(rb >= EFF_RB_LO && rb <= EFF_RB_HI + 1)                                                     \
+  __CPROVER_loop_invariant(g_acc == (((EFF_DONE_A(ra, a) && !g_data_zero && EFF_PARTNER_IN) || (g_ra == ra && g_a == a && g_rb >= EFF_RB_LO && g_rb < rb && EFF_B_IN)) ? 1 : 0)) \
+  __CPROVER_decreases(EFF_RB_HI + 1 - rb)
+#define LC_K_iter_eff_3                                                                                               \
+  __CPROVER_assigns(b, g_acc)                                                                                          \
+  __CPROVER_loop_invariant(b >= a + FN(self) / 2 - self->half_fan_size && b <= a + FN(self) / 2 + self->half_fan_size + 1) \
+  __CPROVER_loop_invariant(g_acc == (((EFF_DONE_A(ra, a) && !g_data_zero && EFF_PARTNER_IN) || (g_ra == ra && g_a == a && g_rb >= EFF_RB_LO && g_rb < rb && EFF_B_IN) \
+                                      || (g_ra == ra && g_a == a && g_rb == rb && g_b >= a + FN(self) / 2 - self->half_fan_size && g_b < b)) ? 1 : 0)) \
+  __CPROVER_decreases(a + FN(self) / 2 + self->half_fan_size + 1 - b)
+
+/* ---- FanProjData range accessors: the loop bounds of every apply_* / iterate_* / make_*_data function ----
+   The stored index ranges (constructor kernel K_fan_ctor): level 0 [0,R-1]; level 1 [0,N-1]; level 2 of (ra,a): [ra, min(ra+D,R-1)];
+   level 3 of (ra,a,rb): [a+N/2-h, a+N/2+h]. RNGk reads a stored range (index arguments must be inside the level above).
+   From the class's use: get_max_rb(ra) is the largest ring paired with ring ra, min(ra+D, R-1) - it depends on ra;
+   get_min_rb(ra) = max(ra-D, 0); get_min_b/get_max_b(a) the ends of a's fan; get_max_a = N-1; get_max_ra = R-1. */
+#define RNG0(s, which) RNG0_##which(s)
+#define RNG0_min(s) 0
+#define RNG0_max(s) ((s)->num_rings - 1)
+static inline int K_rng1(const struct FAN* self, int i0, int which_max)
+{
+  __CPROVER_assert(i0 >= 0 && i0 < self->num_rings, "(*this)[ra] inside the ring range");
+  return which_max ? FN(self) - 1 : 0;
+}
+#define RNG1(s, i0, which) K_rng1(s, i0, RNG_IS_##which)
+#define RNG_IS_min 0
+#define RNG_IS_max 1
+#define A_MIN_OF(s, i0) K_rng1(s, i0, 0)
+static inline int K_rng2(const struct FAN* self, int i0, int i1, int which_max)
+{
+  __CPROVER_assert(i0 >= 0 && i0 < self->num_rings && i1 >= 0 && i1 < FN(self), "(*this)[ra][a] inside its ranges");
+  return which_max ? RBMAX(self, i0) : i0;
+}
+#define RNG2(s, i0, i1, which) K_rng2(s, i0, i1, RNG_IS_##which)
+#define RB_MIN_OF(s, i0, i1) K_rng2(s, i0, i1, 0)
+static inline int K_rng3(const struct FAN* self, int i0, int i1, int i2, int which_max)
+{
+  __CPROVER_assert(i0 >= 0 && i0 < self->num_rings && i1 >= 0 && i1 < FN(self) && i2 >= i0 && i2 <= RBMAX(self, i0), "(*this)[ra][a][rb] inside its ranges");
+  return which_max ? MAXB(self, i1) : MINB(self, i1);
+}
+#define RNG3(s, i0, i1, i2, which) K_rng3(s, i0, i1, i2, RNG_IS_##which)
+#define ACC_PRE (__CPROVER_is_fresh(self, sizeof(*self)) && FAN_VALID(self))
+#define CONTRACT_K_fan_get_max_rb __CPROVER_requires(ACC_PRE && ra >= 0 && ra < self->num_rings) __CPROVER_assigns() __CPROVER_ensures(__CPROVER_return_value == RBMAX(self, ra))
+#define CONTRACT_K_fan_get_min_rb_acc __CPROVER_requires(ACC_PRE && ra >= 0 && ra < self->num_rings) __CPROVER_assigns() __CPROVER_ensures(__CPROVER_return_value == K_max_int(ra - self->max_ring_diff, 0))
+#define CONTRACT_K_fan_get_min_b __CPROVER_requires(ACC_PRE && a >= 0 && a < FN(self)) __CPROVER_assigns() __CPROVER_ensures(__CPROVER_return_value == MINB(self, a))
+#define CONTRACT_K_fan_get_max_b __CPROVER_requires(ACC_PRE && a >= 0 && a < FN(self)) __CPROVER_assigns() __CPROVER_ensures(__CPROVER_return_value == MAXB(self, a))
+#define CONTRACT_K_fan_get_max_a __CPROVER_requires(ACC_PRE) __CPROVER_assigns() __CPROVER_ensures(__CPROVER_return_value == FN(self) - 1)
+#define CONTRACT_K_fan_get_max_ra __CPROVER_requires(ACC_PRE) __CPROVER_assigns() __CPROVER_ensures(__CPROVER_return_value == self->num_rings - 1)
 #endif
